@@ -24,7 +24,7 @@ class C17(Prop):
     tie_groups = ['Router']
     observables = 'add_route results, which recording handler ran (and how often), the returned response bytes'
     rule = ('route tables over 3 methods x a path alphabet with prefix-related paths, empty prefix and ":" in paths, '
-            'random registration orders with duplicates, requests in origin- and absolute-form; exhaustive over all '
+            'random registration orders with duplicates, requests in origin- and absolute-form (with host, host:port and empty host); exhaustive over all '
             'ordered tables of <= 2 routes in the thorough tier; non-trivial = distinct (table, request list) with at '
             'least two routes')
 
